@@ -74,6 +74,18 @@ CLAIMS = {
             "The option machine is model-checked exhaustively (bounded depth and length, history hidden by a VIEW) for restore-on-every-exit, bad-key-changes-nothing, only-given-keys-change; every edge of the reachable quotient graph is replayed into the real set_options/global_options/get_options (exits by exception included) with get_options() compared to the model after every step; random histories over all twelve real keys are validated by the same specification.",
             "DESIGN.md section 6 C14"),
 }
+MODEL_NOTES = {
+    "C02": "In addition TLC enumerates all ordered pairs of a universe of small polynomials with evaluation points (MC_Algebra), checks that evaluation is a ring homomorphism, staged = one-shot and the swap is an involution on the specification, and every pair is replayed through five binding forms, six carriers, staged evaluation and the q0<->q1 swap.",
+    "C03": "In addition TLC enumerates every attribute triple with up to 2 (thorough: 3) rows over exponents 0..1 in two indeterminates under all 36 combinations of explicit and global retain flags (MC_Attr), checks that cleaning is idempotent, denotation-preserving and drops exactly the prescribed rows and names, and every triple is replayed on the three constructors.",
+    "C06": "In addition TLC checks linearity, the product rule, commuting mixed partials and 'free of the variable => 0' on all ordered pairs of a universe of small polynomials (MC_Algebra) and the pairs (and their products) are replayed through all designation kinds under the four retain settings.",
+    "C07": "In addition TLC enumerates all ordered pairs of a universe of small polynomials under the four settings (MC_Order), checks trichotomy, antisymmetry, transitivity against every third polynomial, equality only for identical polynomials and numeric order of constants on the specification, and replays every pair on the six operators, maximum/minimum, comparisons with plain numbers and the lead queries.",
+    "C09": "In addition TLC enumerates the index-expression grammar (integers, slices, newaxis, ellipsis, integer lists incl. several lists separated by slices) and all axis permutations for small shapes (MC_Shape), checks that the specification's gather maps are total, and every expression is replayed.",
+    "C10": "In addition TLC enumerates every (function, shape, axis choice, keepdims) with axes as None, single, negative and ordered tuples in every order (MC_Reduce), checks fold laws on an array of distinct symbolic elements, and every vector is replayed through all spellings.",
+    "C12": "In addition TLC enumerates all 196 ordered dtype pairs (MC_DType), checks commutativity / idempotence / absorption of the promotion rules and idempotence of casts (it refuted associativity, which numpy's own table does not have either), and every pair is replayed: model-vs-numpy binding events, dtype= construction, astype, +, -, *, and x - x.",
+    "C16": "In addition TLC enumerates all ordered pairs of a universe of small polynomials printed as a two-element array under every display order and both retain_names settings (MC_Text), checks that the display order totally orders each element's monomials, and every pair is replayed on str/repr.",
+    "C18": "In addition TLC enumerates every key matrix of a small universe and every (start, stop, norm, flags) vector (MC_Sort), checks that the order is a strict total order and basic laws of the index sets, and every vector is replayed on glexsort / glexindex / bindex / monomial.",
+    "C20": "In addition TLC enumerates single exponents across the range (MC_Keys; thorough: every exponent 0..57500), checks that the key codec is a bijection and that the guaranteed range avoids unstorable code points, and every exponent is replayed through construction, the raw view, pickling and a multiplication.",
+}
 NOT_YET = "check under construction in this session: the TLA+ action exists in the design (DESIGN.md section 6) but is not yet bound to the implementation by a registered check"
 
 
@@ -83,6 +95,13 @@ def main():
         if pid not in CLAIMS:
             continue
         tech, text, ref = CLAIMS[pid]
+        from harness import catalog
+        models = sorted({mm["module"] for mm in catalog.CATALOG.get(pid, {}).get("models", [])})
+        if models:
+            note = MODEL_NOTES.get(pid, "")
+            tech += "; TLC bounded model(s) %s: laws checked on every state, every enumerated vector replayed on the implementation" % ", ".join(models)
+            if note and note not in text:
+                text += " " + note
         checks.append({
             "property_id": pid,
             "quick_cmd": "bin/check %s --tier quick" % pid,
